@@ -305,6 +305,13 @@ def run(ctx: Ctx) -> int:
     ctx.coq, ctx.theorems = cr, cr.theorems
     if not cr.ok:
         ctx.obligation_errors += cr.errors
+    try:
+        st = json.loads((common.BUILD / "translate_status.json").read_text()).get("c11_validate", "missing")
+    except Exception as e:  # noqa: BLE001
+        st = f"missing: {type(e).__name__}"
+    ctx.extra["gen_obligations"] = [{"table": "GenC11.v (Table._validate_cell_coords translated from its AST)", "status": st}]
+    if st != "ok":
+        ctx.obligation_errors.append(f"translator: GenC11.v {st}")
     if not ctx.quick:
         ctx.extra["coqchk"] = common.coqchk("C11")
         if ctx.extra["coqchk"]["exit"] != 0:
